@@ -46,12 +46,14 @@ LEVEL_TEXT = ("All histories of public CHText operations up to the depth bound o
               "after every transition and in every state the objects are compared with a tuple-of-(char, "
               "color) reference with str semantics, including every index, slice, fixed_len and 80 format "
               "specs.")
-LEVEL_NOTE = ("Bounded: depth D, visible length <= L, 4 colors, operand pool of 3 strings and 8 chunks. "
-              "States first reached at depth >= 2 may be visited by several shards (counted once per shard). "
-              "Trusted: models/chtext_model.py, models/sgr.py.")
+LEVEL_NOTE = ("Bounded: depth D, visible length <= L, 3-4 colors, operand pool of 3 strings and 6-8 chunks "
+              "(see bounds). States of depth <= 2 are globally distinct; a deeper state may be visited by "
+              "several shards (it is then counted once per shard). Trusted: models/chtext_model.py, "
+              "models/sgr.py.")
 RULE = ("case = one machine state (complete concrete state of both registers + alias bit, modulo register "
-        "swap) first reached by a history; distinct within a shard by the visited set, depth<=1 states are "
-        "globally distinct; non-trivial: some register holds >= 2 chunks or the registers are aliased")
+        "swap) first reached by a history; states of depth <= 2 are globally distinct (owner = first "
+        "level-1 state reaching them), deeper states are distinct within a shard by its visited set; "
+        "non-trivial: some register holds >= 2 chunks or the registers are aliased")
 ASSUMPTIONS = [
     "operands are str, chunks produced by ColorFmt, CHText objects and lists of those (documented operands)",
     "format specs follow [[fill]align][width][s]; a leading 0 (zero padding flag) is outside fill/align/width",
@@ -62,7 +64,10 @@ REQUIRED_FEATURES = ["op:new", "op:add", "op:iadd", "op:radd", "op:join", "op:sl
                      "op:iadd-self", "op:iadd-list", "obs:index", "obs:slice", "obs:slice-negative",
                      "obs:slice-out-of-range", "obs:fixed_len", "obs:format", "obs:eq-str", "obs:eq-chunk",
                      "obs:eq-rebuilt", "obs:ne-variant", "state:multi-chunk", "state:merged-neighbours",
-                     "state:empty-chunk-dropped", "index:IndexError"]
+                     "state:empty-chunk-dropped", "index:IndexError",
+                     "iadd-after-observation:merges-into-last-chunk", "iadd-after-observation:starts-new-chunk",
+                     "iadd-after-observation:operand-str", "iadd-after-observation:operand-chunk",
+                     "iadd-after-observation:operand-text", "iadd-after-observation:operand-list"]
 
 CHText = impl.CHText
 Chunk = impl.CHText.Chunk
@@ -100,10 +105,20 @@ def _alarm(signum, frame):
 
 
 # ------------------------------------------------------------------------------------------------ tiers
-def params(tier):
-    if tier == "thorough":
-        return {"L": 7, "D": 4, "colors": 4, "ctor_parts": 3, "nshards": 480, "nprefix": 32}
-    return {"L": 6, "D": 3, "colors": 3, "ctor_parts": 3, "nshards": 96, "nprefix": 16}
+CONFIGS = {
+    "q":    {"L": 6, "D": 3, "colors": 3, "ctor_parts": 3, "nshards": 96, "nprefix": 16},
+    "deep": {"L": 5, "D": 4, "colors": 3, "ctor_parts": 3, "nshards": 320, "nprefix": 16},
+    "wide": {"L": 7, "D": 3, "colors": 4, "ctor_parts": 3, "nshards": 160, "nprefix": 32},
+}
+REPLAY_CONFIG = "wide"          # widest observer ranges / all colors; replays execute the recorded history only
+
+
+def configs(tier):
+    return ["deep", "wide"] if tier == "thorough" else ["q"]
+
+
+def params(cfg):
+    return CONFIGS[cfg]
 
 
 def pool(p):
@@ -115,19 +130,25 @@ def pool(p):
 
 
 def bounds(tier):
-    p = params(tier)
-    strs, chunks = pool(p)
-    return {"max_visible_len": p["L"], "depth": p["D"], "colors": p["colors"],
-            "pool_strings": [x[1] for x in strs], "pool_chunks": [[x[1], x[2]] for x in chunks],
-            "constructor_parts_from_initial_state": p["ctor_parts"],
-            "index_range": f"-{p['L'] + 1}..{p['L']}", "slice_bounds": f"None, -{p['L']}..{p['L']}",
-            "fixed_len": f"0..{p['L']}", "format_specs": len(M.SPECS)}
+    out = {}
+    for cfg in configs(tier):
+        p = params(cfg)
+        strs, chunks = pool(p)
+        out[cfg] = {"max_visible_len": p["L"], "depth": p["D"], "colors": p["colors"],
+                    "pool_strings": [x[1] for x in strs], "pool_chunks": [[x[1], x[2]] for x in chunks],
+                    "constructor_parts_from_initial_state": p["ctor_parts"],
+                    "index_range": f"-{p['L'] + 1}..{p['L']}", "slice_bounds": f"None, -{p['L']}..{p['L']}",
+                    "fixed_len": f"0..{p['L']}", "format_specs": len(M.SPECS)}
+    return out
 
 
 def shards(tier):
-    p = params(tier)
-    return ([("chunks",)] + [("prefix", k, p["nprefix"]) for k in range(p["nprefix"])]
-            + [("bfs", k, p["nshards"]) for k in range(p["nshards"])])
+    out = [("chunks", configs(tier)[-1])]
+    for cfg in configs(tier):
+        p = params(cfg)
+        out += [("prefix", cfg, k, p["nprefix"]) for k in range(p["nprefix"])]
+        out += [("bfs", cfg, k, p["nshards"]) for k in range(p["nshards"])]
+    return out
 
 
 # ------------------------------------------------------------------------------------------------ real side
@@ -148,11 +169,42 @@ def _mentions(x, t):
     return x == ["r", t] or (x[0] == "l" and any(_mentions(y, t) for y in x[1]))
 
 
-def okey(o):
-    """Complete concrete state of one register object."""
+def _other_slots():
+    """Slots of CHText besides scrlen/chunks (none on the pinned tree; a tree that adds e.g. a render cache
+    gets it into the state key, so 'same chunks, different cache' are different states)."""
+    names = []
+    for k in CHText.__mro__:
+        sl = k.__dict__.get("__slots__", ())
+        for n in ((sl,) if isinstance(sl, str) else sl):
+            if n not in ("scrlen", "chunks", "__dict__", "__weakref__") and n not in names:
+                names.append(n)
+    return tuple(names)
+
+
+OTHER_SLOTS = _other_slots()
+HAS_DICT = hasattr(CHText(), "__dict__")
+
+
+def _plain(x):
+    return x if isinstance(x, (str, int, float, type(None), bool)) else repr(x)
+
+
+def bkey(o):
+    """The chunk structure of one register object."""
     if type(o) is not CHText:
         return ("not-a-CHText", type(o).__name__, str(o))
     return (o.scrlen, tuple((c.c_prefix, c.text, c.c_suffix) for c in o.chunks))
+
+
+def okey(o):
+    """Complete concrete state of one register object: every slot (and __dict__ if there is one)."""
+    k = bkey(o)
+    if (OTHER_SLOTS or HAS_DICT) and type(o) is CHText:
+        ex = tuple((n, _plain(getattr(o, n, "<unset>"))) for n in OTHER_SLOTS)
+        if HAS_DICT:
+            ex += (("__dict__", repr(sorted(o.__dict__.items()))),)
+        return k + (ex,)
+    return k
 
 
 def ekey(v):
@@ -248,7 +300,11 @@ def state_key(regs):
     k0, k1 = okey(regs[0]), okey(regs[1])
     al = regs[0] is regs[1] or (type(regs[0]) is CHText and type(regs[1]) is CHText
                                 and regs[0].chunks is regs[1].chunks)
-    return (k0, k1, al) if k0 <= k1 else (k1, k0, al)
+    try:
+        swap = k1 < k0
+    except TypeError:
+        swap = repr(k1) < repr(k0)
+    return (k1, k0, al) if swap else (k0, k1, al)
 
 
 # ------------------------------------------------------------------------------------------------ operations
@@ -334,9 +390,67 @@ def _same_value(y, exp):
         return "wrong-colors"
     if len(y) != len(exp):
         return "wrong-len"
-    if okey(y) != ekey(exp):
+    if bkey(y) != ekey(exp):
         if not (y == rebuilt_a(exp)):
             return "not-equal-to-same-text"
+    return None
+
+
+# -- light observers: taken after EVERY transition, never cached -------------------------------------------
+_COLOR_OF_STATE = {st: c for c, st in SGR_STATE.items()}
+_CELLS_MEMO = {}
+_FMT_MEMO = {}
+LIGHT_SPECS = ("_^9", ">3")
+
+
+def cells_of(s):
+    """String -> tuple of (char, color id) a terminal shows, or a str describing what is wrong with it.
+    (A pure function of the string, memoised; the calls on the objects are never memoised.)"""
+    r = _CELLS_MEMO.get(s)
+    if r is None:
+        cells, final, problems = sgr.run(s)
+        if problems:
+            r = "malformed: " + problems[0]
+        elif final != sgr.DEFAULT:
+            r = "terminal not in default state at the end"
+        else:
+            r = tuple((ch, _COLOR_OF_STATE.get(st, -1)) for ch, st in cells)
+        if len(_CELLS_MEMO) < 200000:
+            _CELLS_MEMO[s] = r
+    return r
+
+
+def fmt_cells(v, spec):
+    r = _FMT_MEMO.get((v, spec))
+    if r is None:
+        r = M.m_format(v, spec)
+        if len(_FMT_MEMO) < 200000:
+            _FMT_MEMO[(v, spec)] = r
+    return r
+
+
+def light(obj, v):
+    """len / plain_text / str (twice) / strip_colors / format of one register against the reference.
+    -> None or (what, observed, expected)."""
+    if type(obj) is not CHText:
+        return None
+    if len(obj) != len(v):
+        return ("len", len(obj), len(v))
+    txt = "".join([c for c, _ in v])
+    pt = obj.plain_text()
+    if pt != txt:
+        return ("plain_text", pt, txt)
+    s = str(obj)
+    if cells_of(s) != v:
+        return ("str", s, show(v))
+    if impl.CHText.strip_colors(s) != txt:
+        return ("strip_colors-of-str", impl.CHText.strip_colors(s), txt)
+    for spec in LIGHT_SPECS:
+        f = format(obj, spec)
+        if cells_of(f) != fmt_cells(v, spec):
+            return ("format", [spec, f], show(fmt_cells(v, spec)))
+    if str(obj) != s:
+        return ("second-str", str(obj), s)
     return None
 
 
@@ -530,9 +644,43 @@ class Machine:
     def __init__(self, p):
         self.p = p
         self.obs_cache = {}       # register key -> tuple of aliasing calls (only violation-free observations)
+        self.observed = {}        # id -> object: texts of the current execution that have been observed
+        self.feats = {}           # measured features of executed transitions (flushed by the search)
+        self.nlight = 0           # calls made by the always-on observers (flushed by the search)
 
     def fresh(self):
-        return [CHText(), CHText()], [(), ()]
+        self.observed = {}
+        regs = [CHText(), CHText()]
+        self.settle(regs, [(), ()], (0, 1))
+        return regs, [(), ()]
+
+    def settle(self, regs, refs, which):
+        """The observation part of every transition: len, plain_text, str, strip_colors, format on the
+        given registers. -> first disagreement with the reference or None."""
+        bad = None
+        for i in which:
+            o = regs[i]
+            self.nlight += 7
+            r = light(o, refs[i])
+            self.observed[id(o)] = o
+            if r is not None and bad is None:
+                bad = (i,) + r
+        return bad
+
+    def _note_iadd(self, op, regs, refs):
+        """Measured: an in-place `+=` on a text that has been observed before."""
+        t = op[1]
+        if id(regs[t]) not in self.observed:
+            return
+        x = op[2]
+        kind = {"s": "str", "c": "chunk", "r": "text", "l": "list"}[x[0]]
+        f = self.feats
+        f["iadd-after-observation:operand-" + kind] = f.get("iadd-after-observation:operand-" + kind, 0) + 1
+        tv, ov = refs[t], M.operand_value(x, refs)
+        if tv and ov:
+            k = ("iadd-after-observation:merges-into-last-chunk" if tv[-1][1] == ov[0][1]
+                 else "iadd-after-observation:starts-new-chunk")
+            f[k] = f.get(k, 0) + 1
 
     def replay_silent(self, hist):
         regs, refs = self.fresh()
@@ -542,6 +690,7 @@ class Machine:
             refs = apply_ref(op, refs)
             origin = _origin_after(op[0], op[1], regs, regs2, origin)
             regs = regs2
+            self.settle(regs, refs, (0, 1))       # same observations as when the history was first run
         return regs, refs, origin
 
     def step(self, op, regs, refs, origin):
@@ -555,6 +704,8 @@ class Machine:
         except IndexError:
             refs2, ref_exc = None, "IndexError"
         aliased = regs[0] is regs[1]
+        if kind == "iadd" and refs2 is not None:
+            self._note_iadd(op, regs, refs)
         try:
             regs2 = apply_real(op, regs)
         except Runaway:
@@ -578,7 +729,7 @@ class Machine:
             o = regs2[i]
             if type(o) is not CHText:
                 return None, None, None, (f"{kind}:result-type", "result is not a text", repr(o), "CHText")
-            if okey(o) == ekey(refs2[i]):
+            if bkey(o) == ekey(refs2[i]):
                 continue
             bad = _same_value(o, refs2[i])
             if bad is None:
@@ -592,6 +743,18 @@ class Machine:
                                           show(read(o)), show(refs2[i]))
             return None, None, None, (f"{kind}:other-text-changed", "the operation changed a text it was "
                                       "not applied to", show(read(o)), show(refs2[i]))
+        # observations after the transition: the target always; the other register too when the operation
+        # mutates in place (source objects of the other operations are compared slot by slot by the search)
+        bad = self.settle(regs2, refs2, (t, 1 - t) if kind == "iadd" or aliased else (t,))
+        if bad is not None:
+            i, what, obs, exp = bad
+            if aliased:
+                return None, None, None, (f"aliasing-after-{origin}", f"`{kind}` on one text changed another one: "
+                                          f"`{origin}` returned its receiver instead of a new text", obs, exp)
+            return None, None, None, (f"{kind}:then-{what}-differs",
+                                      f"after `{kind}`, {what}() of r{i} disagrees with the str result "
+                                      f"(an earlier observation or the operation left stale state behind)",
+                                      obs, exp)
         return regs2, refs2, _origin_after(kind, t, regs, regs2, origin), None
 
     def observe_state(self, regs, refs, acc, hist, use_cache=True):
@@ -602,7 +765,7 @@ class Machine:
         feats_all = {}
         for i in (0, 1):
             k = okey(regs[i])
-            if use_cache and k == ekey(refs[i]) and k in self.obs_cache:
+            if use_cache and k[:2] == ekey(refs[i]) and k in self.obs_cache:
                 alias_ops[i] = self.obs_cache[k]
                 continue
             feats = {}
@@ -613,7 +776,7 @@ class Machine:
             acc.note_sum("register_states_observed", 1)
             for sig, msg, obs, exp, probe in found:
                 out.append((sig, msg, obs, exp, {"history": hist, "probe": [i] + probe}))
-            if not found and k == ekey(refs[i]):
+            if not found and k[:2] == ekey(refs[i]):
                 self.obs_cache[k] = al
         # pair observers
         acc.trans(3)
@@ -727,7 +890,7 @@ def expand(m, hist, acc, seen, check, collect):
             if regs2[0] is regs2[1]:
                 outcome = "ok-aliased"
                 acc.feat("state:aliased-registers")
-            if okey(regs2[0]) != ekey(refs2[0]) or okey(regs2[1]) != ekey(refs2[1]):
+            if bkey(regs2[0]) != ekey(refs2[0]) or bkey(regs2[1]) != ekey(refs2[1]):
                 outcome = "ok-noncanonical-structure"
             for sig, msg, obs, exp, case in found:
                 acc.violation("C08:" + sig, case, msg, obs, exp)
@@ -739,6 +902,12 @@ def expand(m, hist, acc, seen, check, collect):
             if found:
                 continue
         collect(hist2, key)
+    if check:
+        for f, n in m.feats.items():
+            acc.feat(f, n)
+        acc.trans(m.nlight)
+    m.feats = {}
+    m.nlight = 0
     signal.alarm(0)
 
 
@@ -757,22 +926,23 @@ def _alias_only(m, regs, refs):
         feats = {}
         found = list(observe(regs[i], refs[i], m.p, _N(), feats))
         al = tuple(feats.pop("aliases", ()))
-        if not found and k == ekey(refs[i]):
+        if not found and k[:2] == ekey(refs[i]):
             m.obs_cache[k] = al
         out.append(al)
     return out
 
 
-_FRONTIER = {}      # tier -> frontier of depth <= 2, recomputed (silently) once per worker process
+_FRONTIER = {}      # config -> frontier of depth <= 2, recomputed (silently) once per worker process
 
 
-def frontier(tier):
+def frontier(cfg):
     """Levels 0..2 of the search, globally deduplicated, in a deterministic order.
     -> dict(l1=[hist], l2=[(hist, key)], owner={l2 key: index of the level-1 state that reaches it first},
             keys01=set, keys=set of all keys of depth <= 2)"""
+    tier = cfg
     if tier in _FRONTIER:
         return _FRONTIER[tier]
-    p = params(tier)
+    p = params(cfg)
     m = Machine(p)
     regs, _ = m.fresh()
     seen = {state_key(regs)}
@@ -791,16 +961,17 @@ def frontier(tier):
 
 
 def run_shard(shard, tier, seed, acc):
-    p = params(tier)
+    cfg = shard[1]
+    p = params(cfg)
     old = signal.signal(signal.SIGALRM, _alarm)
     try:
         if shard[0] == "chunks":
             run_chunks(p, acc)
             return
-        fr = frontier(tier)
+        fr = frontier(cfg)
         m = Machine(p)
         D = p["D"]
-        _, k, n = shard
+        _, _, k, n = shard
         if shard[0] == "prefix":
             # transitions into depth <= 2 (each depth-2 state is reported by the level-1 state that owns it)
             if k == 0:
@@ -915,7 +1086,7 @@ def run_chunks(p, acc):
 # ------------------------------------------------------------------------------------------------ replay
 def replay(case, acc):
     if "chunk" in case:
-        p = params("thorough")
+        p = params(REPLAY_CONFIG)
         # re-run the whole receiver battery for that chunk (cheap) and keep its violations
         strs, chunks = pool(p)
         sub = type(acc)()
@@ -928,14 +1099,17 @@ def replay(case, acc):
         return
     hist = case["history"]
     # the bound parameters are those of the tier that produces the longest registers
-    p = params("thorough")
+    p = params(REPLAY_CONFIG)
     old = signal.signal(signal.SIGALRM, _alarm)
     signal.alarm(120)
     try:
         m = Machine(p)
         regs, refs = m.fresh()
         origin = None
-        for n, op in enumerate(hist):
+        found, _ = m.observe_state(regs, refs, acc, [], use_cache=False)
+        for sig, msg, obs, exp, c in found:
+            acc.violation("C08:" + sig, case, msg, obs, exp)
+        for n, op in enumerate(hist if not found else []):
             regs2, refs2, origin2, viol = m.step(op, regs, refs, origin)
             acc.trans(1)
             if viol is not None:
@@ -961,7 +1135,7 @@ def selftest():
     # expectations of tests/test_color.py through the harness: greenred slicing, fixed_len, join
     from mc import core
     acc = core.Acc()
-    p = params("thorough")
+    p = params(REPLAY_CONFIG)
     m = Machine(p)
     hist = [["new", 0, [["c", 1, "ef"], ["c", 2, "g"]]], ["slice", 1, 0, 1, 3], ["fixed", 1, 0, 5],
             ["join", 1, ["c", 1, "d"], [["r", 0], ["s", "a"], ["r", 0]]], ["index", 1, 0, -1]]
